@@ -4,7 +4,7 @@ CONSTANTS
   MaxChats = 1
   MaxSteps = 99
   GenDepth = 20
-  Ops = {"rawfail","connect","login","agreed","userlist","close","chat","setinfo"}
+  Ops = {"loginbegin","loginend","setuser","broadcast","rawfail","connect","login","agreed","userlist","close","chat","setinfo"}
   Thin = FALSE
 INIT Init
 NEXT Next
